@@ -176,6 +176,83 @@ def scenarios(chk):
     return out
 
 
+# ---- the interpreter's side of a visit: hand-written guards evaluated at visit time (specs/GuardEval.tla) ----------
+
+def guard_stage(chk, only=None):
+    """Chains of hand-written guarded assignments (guards read what other statements of the chain change) run for one
+    step by the REAL NumpyInterpreter; per visit: store before, the truth value evaluate_condition returned, store after."""
+    import itertools
+    from dagrt.exec_numpy import NumpyInterpreter
+    from dagrt.language import Assign, DAGCode, ExecutionPhase
+    from . import exprs
+    from .gen import CMP, C, S, V
+    N, H = "<p>n", "<p>hits"
+    pos = CMP(">", V(N), C(0))
+    pool = [(N, S(V(N), C(-1)), pos), (H, S(V(H), C(1)), pos), (N, S(V(N), C(2)), CMP("<", V(H), C(1))),
+            (H, S(V(H), C(10)), pos), (N, C(0), pos), (H, V(N), ["not", pos])]
+    rng = random.Random(chk.seed + 7)
+    chains = list(itertools.product(range(len(pool)), repeat=3)) + list(itertools.product(range(len(pool)), repeat=4))
+    if only is not None:
+        chains = [tuple(only)]
+    elif chk.quick:
+        chains = chains[:216] + rng.sample(chains[216:], 500)
+
+    class Rec(NumpyInterpreter):
+        def snap(self):
+            return [[k, ["i", int(self.context[k])]] for k in (N, H)]
+
+        def close(self):
+            if self.log and self.log[-1]["after"] is None:
+                self.log[-1]["after"] = self.snap()
+
+        def evaluate_condition(self, stmt):
+            self.close()
+            before = self.snap()
+            g = super().evaluate_condition(stmt)
+            self.log.append({"k": int(stmt.id[1:]), "guard": exprs.to_json(stmt.condition), "lhs": stmt.assignee,
+                             "rhs": exprs.to_json(stmt.expression), "before": before, "g": bool(g), "after": None})
+            return g
+    cases = []
+    for chain in chains:
+        stmts = [Assign(id="s%d" % (k + 1), assignee=pool[j][0], assignee_subscript=(), expression=exprs.from_json(pool[j][1]),
+                        condition=exprs.from_json(pool[j][2]), depends_on=["s%d" % k] if k else [])
+                 for k, j in enumerate(chain)]
+        code = DAGCode({"p": ExecutionPhase(name="p", next_phase="p", statements=frozenset(stmts))}, "p")
+        for n0 in (0, 1, 2):
+            it = Rec(code, {})
+            it.log = []
+            it.set_up(t_start=0, dt_start=1, context={})
+            it.context[N], it.context[H] = n0, 0
+            err = ""
+            try:
+                for _ in it.run(max_steps=1):
+                    pass
+            except Exception as e:
+                err = type(e).__name__
+            it.close()
+            if err:
+                chk.violation("C04:interp:exception:%s" % err, "the interpreter raised %s on a hand-written guarded chain %s (n=%d)"
+                              % (err, [str(x) for x in stmts], n0), {"guard_chain": list(chain), "n0": n0})
+                continue
+            cases.append({"n": len(chain), "visits": it.log, "chain": list(chain), "n0": n0})
+    out = tlc.judge_batch("GuardEval", [{"n": c["n"], "visits": c["visits"]} for c in cases], chunk=1500, tags=("BAD", "RAN"), chk=chk)
+    ran = {t[1] for t in out["RAN"]}
+    if len(ran) != len(cases):
+        raise tlc.MachineryError("GuardEval: %d of %d cases judged" % (len(ran), len(cases)))
+    bad = {}
+    for t in out["BAD"]:
+        bad.setdefault(t[1], set()).add(t[2])
+    for k in sorted(bad):
+        c = cases[k]
+        for clause in sorted(bad[k]):
+            chk.violation("C04:interp:%s" % clause,
+                          "real NumpyInterpreter on a hand-written chain %s with n=%d: %s violated; visits (before, guard value, after): %s"
+                          % (c["chain"], c["n0"], clause, [(v["before"], v["g"], v["after"]) for v in c["visits"]]),
+                          {"guard_chain": c["chain"], "n0": c["n0"]})
+    return {"guard_chains": len(cases), "guard_visits": sum(len(c["visits"]) for c in cases),
+            "guard_visits_with_false_guard": sum(1 for c in cases for v in c["visits"] if not v["g"])}
+
+
 def design_level(chk):
     cfg = "Controller" if chk.quick else "Controller5"
     res = tlc.run_tlc("Controller", cfg=cfg, timeout=3000, coverage=not chk.quick)
@@ -256,6 +333,7 @@ def run(chk):
                 c["req_in_plan"] = True
             if "plan" in e:
                 plan = [e.get("s")] + e["plan"] if e["ev"] == "pop" else e["plan"]
+    gstage = guard_stage(chk)
     bad, acc, drift = validate(chk, uniq)
     for k, (pos, clause) in sorted(bad.items()):
         c = uniq[k]
@@ -265,6 +343,7 @@ def run(chk):
                       {"n": c["n"], "deps": c["deps"], "steps": c["steps"], "events": c["events"], "shared": c.get("shared")})
     with_req = sum(1 for c in uniq if any(e["ev"] == "pop" and e["req"] for e in c["events"]))
     with_cut = sum(1 for c in uniq if any(e["ev"] == "pop" and e["cut"] for e in c["events"]))
+    chk.coverage.update(gstage)
     chk.coverage.update({
         "evaluations": len(cases),
         "distinct_nontrivial": with_req,
@@ -298,6 +377,15 @@ def run(chk):
 
 def replay(chk, rep):
     c = rep["case"]
+    if c.get("guard_chain") is not None:
+        from .common import use_repo
+        use_repo()
+        n0 = len(chk.violations)
+        guard_stage(chk, only=c["guard_chain"])
+        print("hand-written guarded chain %s: %s" % (c["guard_chain"], "still violates the contract" if len(chk.violations) > n0
+                                                   else "accepted"))
+        chk.coverage.update({"evaluations": 1, "distinct_nontrivial": 1, "samples": [c["guard_chain"]]})
+        return
     if c.get("shared"):
         sh = c["shared"]
         script = [(nm, {"guards": st["guards"], "reqs": {int(k): v for k, v in st["reqs"]}, "cut": st["cut"]}) for nm, st in sh["script"]]
